@@ -651,8 +651,9 @@ def build_hexconst(args, features):
             raise AssembleError('hexconst %s in %s is not a Felt hex literal constant' % (name, path))
         h = lits[0].strip('"')
         val = int(h, 16) % P
+        oname = name.split('::')[-1]
         out.append('#[verifier::external_body] %s exec const %s: Felt ensures %s@ == 0x%xnat { crate::prelude::Felt::stub() }'
-                   % (vis, name, name, val))
+                   % (vis, oname, oname, val))
     return '\n'.join(out) + '\n'
 
 
